@@ -130,11 +130,11 @@ class Run:
             json.dump(ev, f, indent=1, default=str)
         os.replace(p + ".tmp", p)
 
-    def cleanup(self):
-        # keep build dir small: remove dumps and TLC metadirs
+    def cleanup(self, passed=False):
+        # keep build dir small: remove dumps and TLC metadirs; traces and scripts too when the check passed
         for root, dirs, files in os.walk(self.build):
             for fn in files:
-                if fn.endswith(".dot") or fn.startswith("sim_"):
+                if fn.endswith(".dot") or fn.startswith("sim_") or (passed and (fn.endswith(".ndjson") or fn.endswith(".script") or fn.endswith(".o"))):
                     try:
                         os.unlink(os.path.join(root, fn))
                     except OSError:
